@@ -23,10 +23,6 @@
     * `Stale` (D05): the operation writes to a name whose stored key row has expired but has not
       been cleaned up yet (push, pop-and-push destination; the catalogue also lists insert, where
       it is harmless);
-    * `RangeDev` (D01): `Range` / `Trim` with bounds on which `LIMIT start, stop-start+1` is not
-      the clamped Redis window — exactly `Proofs.Index.rangeDeviates` / `trimDeviates`
-      (`rangeDev_range_iff`, `rangeDev_trim_iff`);
-    * `RangeMissing` (D02): `Range` of a missing key with a negative bound (`LIMIT NULL`);
     * `Collides` (D03): an insert whose computed midpoint is already taken (`sqlUnique`).
 
   The theorem comes in three forms that differ only in how the position arithmetic of the
@@ -103,28 +99,6 @@ def Covered : Op → Bool := isListOp
 def Stale (op : Op) (now : Int) (db : DB) : Bool :=
   (Spec.writeKeys op).any (Spec.staleKey db now)
 
-/-- D01, exactly as in `Spec.known` -/
-def RangeDev (op : Op) (now : Int) (db : DB) : Bool :=
-  match op with
-  | .listRange k a b =>
-    (match Spec.liveListLen db now k with
-     | some n => Spec.rangeWindowDeviates n a b true
-     | none => false)
-  | .listTrim k a b =>
-    (match Spec.liveListLen db now k with
-     | some n => decide (n > 0) && Spec.rangeWindowDeviates n a b false
-     | none => false)
-  | _ => false
-
-/-- D02, exactly as in `Spec.known` -/
-def RangeMissing (op : Op) (now : Int) (db : DB) : Bool :=
-  match op with
-  | .listRange k a b =>
-    (match Spec.liveListLen db now k with
-     | some _ => false
-     | none => !Model.rangePrecheck a b && (decide (a < 0) || decide (b < 0)))
-  | _ => false
-
 /-- D03, exactly as in `Spec.known`: the model's own collision test -/
 def Collides (op : Op) (now : Int) (db : DB) : Bool :=
   match op with
@@ -155,106 +129,34 @@ def Spacious (op : Op) (now : Int) (db : DB) : Bool :=
      | none => true)
   | _ => true
 
-/-- The four classifiers are the entries D05, D01, D02, D03 of the catalogue of known findings
+/-- The two classifiers are the entries D05, D03 of the catalogue of known findings
 that the driver consults (`Spec.known`), for every list operation. -/
 theorem classifiers_are_the_catalogue : ∀ (inTx : Bool) (op : Op) (now : Int) (db : DB), IsListOp op →
     Spec.known inTx op now db
-      = (if Stale op now db then ["D05"] else []) ++ (if RangeDev op now db then ["D01"] else []) ++
-        (if RangeMissing op now db then ["D02"] else []) ++ (if Collides op now db then ["D03"] else []) := by
+      = (if Stale op now db then ["D05"] else []) ++ (if Collides op now db then ["D03"] else []) := by
   intro inTx op now db hop
   cases op <;> first | (cases hop; done) | skip
   case listRange k a b =>
-    simp only [Spec.known, Stale, RangeDev, RangeMissing, Collides, writeKeys, List.any_nil,
-      Bool.false_eq_true, if_false, List.nil_append, List.append_nil]
-    split <;> simp_all
+    simp only [Spec.known, Stale, Collides, writeKeys, List.any_nil,
+      Bool.false_eq_true, if_false, List.append_nil]
   case listTrim k a b =>
-    simp only [Spec.known, Stale, RangeDev, RangeMissing, Collides, writeKeys, List.any_nil,
-      Bool.false_eq_true, if_false, List.nil_append, List.append_nil]
-    split <;> simp_all
+    simp only [Spec.known, Stale, Collides, writeKeys, List.any_nil,
+      Bool.false_eq_true, if_false, List.append_nil]
   case listInsertAfter k p e =>
-    simp only [Spec.known, Stale, RangeDev, RangeMissing, Collides, Bool.false_eq_true, if_false,
+    simp only [Spec.known, Stale, Collides, Bool.false_eq_true, if_false,
       List.append_nil]
     congr 1
     split <;> simp_all
   case listInsertBefore k p e =>
-    simp only [Spec.known, Stale, RangeDev, RangeMissing, Collides, Bool.false_eq_true, if_false,
+    simp only [Spec.known, Stale, Collides, Bool.false_eq_true, if_false,
       List.append_nil]
     congr 1
     split <;> simp_all
-  all_goals simp [Spec.known, Stale, RangeDev, RangeMissing, Collides]
-
-/-! ### D01 is exactly the classifier of `Props/C02idx.lean` -/
-
-theorem rangeWindowDeviates_range (n : Nat) (a b : Int) :
-    Spec.rangeWindowDeviates n a b true = rangeDeviates n a b := by
-  have hlen : (List.range n).length = n := List.length_range
-  have hm : (if (true && Model.rangePrecheck a b) = true then some []
-      else Model.rangeWindow (some (n : Int)) a b (List.range n))
-      = some (modelRange (List.range n) a b) := by
-    unfold modelRange
-    rw [hlen, rangeWindow_some]
-    simp only [Bool.true_and]
-    split <;> rfl
-  unfold Spec.rangeWindowDeviates
-  simp only []
-  rw [hm, Bool.eq_iff_iff]
-  have h := range_eq_iff (List.range n) a b
-  rw [hlen] at h
-  simp only [bne_iff_ne, ne_eq, Option.some.injEq]
-  rw [h]
-  cases rangeDeviates n a b <;> simp
-
-theorem rangeWindowDeviates_trim (n : Nat) (a b : Int) :
-    Spec.rangeWindowDeviates n a b false = trimDeviates n a b := by
-  have hlen : (List.range n).length = n := List.length_range
-  have hm : (if (false && Model.rangePrecheck a b) = true then some []
-      else Model.rangeWindow (some (n : Int)) a b (List.range n))
-      = some (modelTrimKeep (List.range n) a b) := by
-    unfold modelTrimKeep
-    rw [hlen, rangeWindow_some]
-    simp
-  unfold Spec.rangeWindowDeviates
-  simp only []
-  rw [hm, Bool.eq_iff_iff]
-  have h := trim_eq_iff (List.range n) a b
-  rw [hlen] at h
-  unfold Spec.ltrim at h
-  simp only [bne_iff_ne, ne_eq, Option.some.injEq]
-  rw [h]
-  cases trimDeviates n a b <;> simp
+  all_goals simp [Spec.known, Stale, Collides]
 
 theorem liveListLen_eq (db : DB) (now : Int) (k : Bytes) :
     Spec.liveListLen db now k = (db.liveKeyT k TList now).map (fun r => (Model.listRows db r.id).length) :=
   rfl
-
-/-- D01 for `Range`, in the terms of `Props/C02idx.lean` -/
-theorem rangeDev_range_iff (k : Bytes) (a b : Int) (now : Int) (db : DB) :
-    RangeDev (.listRange k a b) now db = false ↔
-      ∀ r, db.liveKeyT k TList now = some r → rangeDeviates (Model.listRows db r.id).length a b = false := by
-  simp only [RangeDev, liveListLen_eq]
-  cases db.liveKeyT k TList now with
-  | none => simp
-  | some r => simp [rangeWindowDeviates_range]
-
-/-- D01 for `Trim`, in the terms of `Props/C02idx.lean` -/
-theorem rangeDev_trim_iff (k : Bytes) (a b : Int) (now : Int) (db : DB) :
-    RangeDev (.listTrim k a b) now db = false ↔
-      ∀ r, db.liveKeyT k TList now = some r → (Model.listRows db r.id).length > 0 →
-        trimDeviates (Model.listRows db r.id).length a b = false := by
-  simp only [RangeDev, liveListLen_eq]
-  cases db.liveKeyT k TList now with
-  | none => simp
-  | some r =>
-    simp only [Option.map_some, rangeWindowDeviates_trim, Bool.and_eq_false_iff,
-      decide_eq_false_iff_not, Option.some.injEq, forall_eq']
-    constructor
-    · rintro (h | h) hpos
-      · exact absurd hpos h
-      · exact h
-    · intro h
-      by_cases hpos : (Model.listRows db r.id).length > 0
-      · exact Or.inr (h hpos)
-      · exact Or.inl hpos
 
 /-! ### the refinement theorem -/
 
@@ -262,12 +164,11 @@ theorem rangeDev_trim_iff (k : Bytes) (a b : Int) (now : Int) (db : DB) :
 the cached length of a list key is its number of rows, `(kid, pos)` is unique, every `rlist` row
 has an owner) and that every list operation preserves (`list_preserves_lwf`). -/
 theorem list_refines_lwf : ∀ (op : Op) (now : Int) (db : DB),
-    IsListOp op → db.LWF → Stale op now db = false → RangeDev op now db = false →
-    RangeMissing op now db = false → Spacious op now db = true →
+    IsListOp op → db.LWF → Stale op now db = false → Spacious op now db = true →
     let r := Model.dbRun op now db
     r.out = (Spec.step op now (Spec.abs now db)).out ∧
       Spec.abs now r.db = Spec.purge now (Spec.step op now (Spec.abs now db)).st := by
-  intro op now db hop hw hst hd1 hd2 hsp
+  intro op now db hop hw hst hsp
   cases op <;> first | (cases hop; done) | skip
   case listDelete k e => exact listDelete_refines hw now k e
   case listDeleteBack k e n => exact listDeleteN_refines hw now k e n true
@@ -296,27 +197,23 @@ theorem list_refines_lwf : ∀ (op : Op) (now : Int) (db : DB),
     have hns : staleKey db now k = false := by simpa [Stale, writeKeys] using hst
     exact listPush_refines hw hns e true hsp
   case listRange k a b =>
-    refine listRange_refines hw now k a b ((rangeDev_range_iff k a b now db).1 hd1) ?_
-    intro hk
-    simpa [RangeMissing, liveListLen_eq, hk, rangeMissingNeg] using hd2
+    exact listRange_refines hw now k a b
   case listSet k i e => exact listSet_refines hw now k i e
   case listTrim k a b =>
-    exact listTrim_refines hw now k a b ((rangeDev_trim_iff k a b now db).1 hd1)
+    exact listTrim_refines hw now k a b
 
 /-- **C02, partial refinement.** One call of any list operation, on any table state satisfying the
-structural invariant, for any arguments and any clock value, outside the classes `Stale` (D05),
-`RangeDev` (D01), `RangeMissing` (D02) and with `Spacious` position arithmetic (which excludes
-`Collides`, D03): the model returns exactly what the in-memory slice returns, and the tables
+structural invariant, for any arguments and any clock value, outside the class `Stale` (D05)
+and with `Spacious` position arithmetic (which excludes `Collides`, D03; D01 and D02 are repaired: `Range`
+and `Trim` refine with no side condition, `Proofs.ListRef.listRange_refines`, `listTrim_refines`): the model returns exactly what the in-memory slice returns, and the tables
 afterwards stand for exactly the slice's new state.
 
 All fifteen operations are covered (`Covered = isListOp`).
 
 The full-strength statement (without the classifiers) is FALSE of the code: see
-`range_deviates`, `trim_deviates`, `range_missing_deviates`, `insert_collision_deviates`,
-`stale_push_deviates`. -/
+`insert_collision_deviates`, `stale_push_deviates`. -/
 theorem list_refines_partial : ∀ (op : Op) (now : Int) (db : DB),
-    IsListOp op → db.Inv → Stale op now db = false → RangeDev op now db = false →
-    RangeMissing op now db = false → Spacious op now db = true →
+    IsListOp op → db.Inv → Stale op now db = false → Spacious op now db = true →
     let r := Model.dbRun op now db
     r.out = (Spec.step op now (Spec.abs now db)).out ∧
       Spec.abs now r.db = Spec.purge now (Spec.step op now (Spec.abs now db)).st :=
@@ -424,13 +321,12 @@ theorem exact_spacious : ∀ (op : Op) (now : Int) (db : DB), Exact op now db = 
 `list_refines_partial`, with `Spacious` replaced by `Exact`: the double-precision sum the
 statement computes is exact. -/
 theorem list_refines_partial_exact : ∀ (op : Op) (now : Int) (db : DB),
-    IsListOp op → db.Inv → Stale op now db = false → RangeDev op now db = false →
-    RangeMissing op now db = false → Exact op now db = true →
+    IsListOp op → db.Inv → Stale op now db = false → Exact op now db = true →
     let r := Model.dbRun op now db
     r.out = (Spec.step op now (Spec.abs now db)).out ∧
       Spec.abs now r.db = Spec.purge now (Spec.step op now (Spec.abs now db)).st :=
-  fun op now db hop hinv hst hd1 hd2 hex =>
-    list_refines_partial op now db hop hinv hst hd1 hd2 (exact_spacious op now db hex)
+  fun op now db hop hinv hst hex =>
+    list_refines_partial op now db hop hinv hst (exact_spacious op now db hex)
 
 /-! ### sequences of operations -/
 
@@ -498,8 +394,7 @@ def runSpec : List (Op × Int) → State → List Out × State
 def CleanRun : List (Op × Int) → DB → Prop
   | [], _ => True
   | (op, now) :: rest, db =>
-    IsListOp op ∧ Stale op now db = false ∧ RangeDev op now db = false ∧
-      RangeMissing op now db = false ∧ Spacious op now db = true ∧
+    IsListOp op ∧ Stale op now db = false ∧  Spacious op now db = true ∧
       CleanRun rest (Model.dbRun op now db).db
 
 /-- the clock does not run backwards -/
@@ -520,8 +415,8 @@ theorem list_seq_refines : ∀ (tr : List (Op × Int)) (t : Int) (db : DB), db.L
       Spec.abs (lastClock t tr) (runModel tr db).2 = (runSpec tr (Spec.abs t db)).2
   | [], _, _, _, _, _ => ⟨rfl, rfl⟩
   | (op, now) :: rest, t, db, hw, hc, hcl => by
-    obtain ⟨hop, hst, hd1, hd2, hsp, hrest⟩ := hcl
-    obtain ⟨href1, href2⟩ := list_refines_lwf op now db hop hw hst hd1 hd2 hsp
+    obtain ⟨hop, hst, hsp, hrest⟩ := hcl
+    obtain ⟨href1, href2⟩ := list_refines_lwf op now db hop hw hst hsp
     have ih := list_seq_refines rest now (Model.dbRun op now db).db
       (list_preserves_lwf op now db hop hw) hc.2 hrest
     simp only [runModel, runSpec, lastClock]
@@ -647,18 +542,16 @@ theorem spacious_of_representable : ∀ (op : Op) (now : Int) (db : DB), IsListO
         rfl
 
 /-- **C02, partial refinement, for tables whose positions are doubles** (everything SQLite can
-store in the `real` column `rlist.pos`): outside `Stale` (D05), `RangeDev` (D01), `RangeMissing`
-(D02) and `AnyCollides` (D03, and the same `sqlUnique` failure of a push) the model returns
+store in the `real` column `rlist.pos`): outside `Stale` (D05) and `AnyCollides` (D03, and the same `sqlUnique` failure of a push) the model returns
 exactly what the in-memory slice returns and the tables afterwards stand for the slice's new
 state. No side condition on the arithmetic is left. -/
 theorem list_refines_partial_repr : ∀ (op : Op) (now : Int) (db : DB),
-    IsListOp op → db.Inv → Representable db → Stale op now db = false → RangeDev op now db = false →
-    RangeMissing op now db = false → AnyCollides op now db = false →
+    IsListOp op → db.Inv → Representable db → Stale op now db = false → AnyCollides op now db = false →
     let r := Model.dbRun op now db
     r.out = (Spec.step op now (Spec.abs now db)).out ∧
       Spec.abs now r.db = Spec.purge now (Spec.step op now (Spec.abs now db)).st :=
-  fun op now db hop hinv hr hst hd1 hd2 hac =>
-    list_refines_partial op now db hop hinv hst hd1 hd2 (spacious_of_representable op now db hop hr hac)
+  fun op now db hop hinv hr hst hac =>
+    list_refines_partial op now db hop hinv hst (spacious_of_representable op now db hop hr hac)
 
 /-- every list operation leaves positions that are doubles -/
 theorem list_preserves_representable : ∀ (op : Op) (now : Int) (db : DB), IsListOp op →
@@ -701,21 +594,20 @@ theorem list_preserves_representable : ∀ (op : Op) (now : Int) (db : DB), IsLi
 def CleanRunRepr : List (Op × Int) → DB → Prop
   | [], _ => True
   | (op, now) :: rest, db =>
-    IsListOp op ∧ Stale op now db = false ∧ RangeDev op now db = false ∧
-      RangeMissing op now db = false ∧ AnyCollides op now db = false ∧
+    IsListOp op ∧ Stale op now db = false ∧  AnyCollides op now db = false ∧
       CleanRunRepr rest (Model.dbRun op now db).db
 
 theorem cleanRun_of_repr : ∀ (tr : List (Op × Int)) (db : DB), db.LWF → Representable db →
     CleanRunRepr tr db → CleanRun tr db
   | [], _, _, _, _ => trivial
-  | (op, now) :: rest, db, hw, hr, ⟨hop, hst, hd1, hd2, hac, hrest⟩ =>
-    ⟨hop, hst, hd1, hd2, spacious_of_representable op now db hop hr hac,
+  | (op, now) :: rest, db, hw, hr, ⟨hop, hst, hac, hrest⟩ =>
+    ⟨hop, hst, spacious_of_representable op now db hop hr hac,
       cleanRun_of_repr rest _ (list_preserves_lwf op now db hop hw)
         (list_preserves_representable op now db hop hr) hrest⟩
 
 /-- **C02 for sequences, on tables whose positions are doubles.** Started on tables that satisfy
 the invariant and store only doubles (e.g. the empty database), any sequence of list operations
-at non-decreasing clock values that never meets D01, D02, D05 and never hits the unique index:
+at non-decreasing clock values that never meets D05 and never hits the unique index:
 every call returns what the in-memory slices return, and at the end the tables stand for exactly
 those slices. -/
 theorem list_seq_refines_repr : ∀ (tr : List (Op × Int)) (t : Int) (db : DB), db.Inv →
@@ -751,28 +643,22 @@ theorem len_eq_full_range_count : ∀ (k : Bytes) (l : List Bytes) (now : Int) (
       · rw [hg'] at hg; cases hg; exact ⟨r, hk, rfl⟩
       · rw [hg'] at hg; cases hg; exact absurd rfl (hv _)
     obtain ⟨r, hk, _⟩ := hlive
-    have hd : ∀ n : Nat, rangeDeviates n 0 (-1) = false := by
-      intro n
-      unfold rangeDeviates trimDeviates sliceDeviates Spec.normIdx
-      simp
-      omega
-    have h := (listRange_refines hw now k 0 (-1) (fun r _ => hd _) (by intro hk'; rw [hk] at hk'; cases hk')).1
+    have h := (listRange_refines hw now k 0 (-1)).1
     have hfull : Spec.lrange l 0 (-1) = l := by
-      have h1 := range_refines_partial l 0 (-1) (hd _)
+      have h1 := range_refines l 0 (-1)
       rw [full_range_is_list] at h1
       exact h1.symm
     show (Model.listRange db k 0 (-1) now).out = _
     rw [h]
     simp [Spec.listRange, Spec.listAt, hg, Spec.ok, Spec.bytesList, hfull]
 
-/-- "a missing key reads as an empty list and never as an error" — for `Len`, for `Range` with
-non-negative bounds, and for the removals and `Trim` (nothing to remove). `Get`, `Set`, the pops
-and the inserts report `ErrNotFound` by design. For `Range` with a negative bound the sentence is
-FALSE of the code (D02, `range_missing_deviates`). -/
+/-- "a missing key reads as an empty list and never as an error" — for `Len`, for `Range` with any
+bounds (D02 repaired), and for the removals and `Trim` (nothing to remove). `Get`, `Set`, the pops
+and the inserts report `ErrNotFound` by design. -/
 theorem missing_key_reads_empty : ∀ (k : Bytes) (now : Int) (db : DB), db.Inv →
     Spec.get (Spec.abs now db) k = none →
     (Model.dbRun (.listLen k) now db).out = .ok (.int 0) ∧
-    (∀ a b, 0 ≤ a → 0 ≤ b → (Model.dbRun (.listRange k a b) now db).out = .ok (.list [])) ∧
+    (∀ a b, (Model.dbRun (.listRange k a b) now db).out = .ok (.list [])) ∧
     (∀ e, (Model.dbRun (.listDelete k e) now db).out = .ok (.int 0)) ∧
     (∀ a b, (Model.dbRun (.listTrim k a b) now db).out = .ok (.int 0)) := by
   intro k now db hinv hg
@@ -788,13 +674,10 @@ theorem missing_key_reads_empty : ∀ (k : Bytes) (now : Int) (db : DB), db.Inv 
   · have h := (listLen_refines hw now k).1
     show (Model.listLen db k now).out = _
     rw [h]; simp [Spec.listLen, Spec.listAt, hg, Spec.ok]
-  · intro a b ha hb
+  · intro a b
     show (Model.listRange db k a b now).out = _
     rw [listRange_missing hk]
-    · rfl
-    · have h1 : ¬ a < 0 := by omega
-      have h2 : ¬ b < 0 := by omega
-      simp [rangeMissingNeg, h1, h2]
+    rfl
   · intro e
     have h := (listDelete_refines hw now k e).1
     rw [show Model.dbRun (.listDelete k e) now db = update (fun d => Model.listDelete d k e now) db from rfl, h]
@@ -818,7 +701,7 @@ theorem push_back_appends : ∀ (k e : Bytes) (l : List Bytes) (et : Option Int)
   obtain ⟨hlive, hns⟩ := get_abs_live hw.wf hg
   have hlive : liveAt now et = true := hlive
   have href := list_refines_partial (.listPushBack k e) now db rfl hinv
-    (by simpa [Stale, writeKeys] using hns) rfl rfl hsp
+    (by simpa [Stale, writeKeys] using hns) hsp
   simp only [Spec.step, Spec.listPush, hg, Spec.ok, Bool.false_eq_true, if_false] at href
   refine ⟨by rw [href.1]; simp, ?_⟩
   rw [href.2, get_purge ((sorted_abs hw.wf.names now).put k _), get_put]
@@ -962,36 +845,33 @@ theorem out_of_outErr {o : Out} {e : Err} (h : outErr o = some e) : o = .error e
   | error e' => simp only [outErr, Option.some.injEq] at h; rw [h]
   | ok v => simp [outErr] at h
 
-/-- D01 is real (`Range`). `Range("k", 2, 0)` on ["a","b","c"]: in-range, non-negative, inverted
-bounds escape the Go shortcut, reach SQLite as `LIMIT 2, -1` and return ["c"]; the slice returns
-nothing. -/
-theorem range_deviates :
-    dbABC.Inv ∧ RangeDev (.listRange bK 2 0) 10 dbABC = true ∧
-    (Model.dbRun (.listRange bK 2 0) 10 dbABC).out = .ok (.list [.bytes bC]) ∧
+/-- D01 was real (`Range`), and is repaired. `Range("k", 2, 0)` on ["a","b","c"]: in-range, non-negative,
+inverted bounds escape the Go shortcut; the statement used to reach SQLite as `LIMIT 2, -1` and return
+["c"] (`Props.C02.raw_range_limit_deviates`); the clamped window is empty, as the slice's. -/
+theorem range_inverted_agrees :
+    dbABC.Inv ∧
+    (Model.dbRun (.listRange bK 2 0) 10 dbABC).out = .ok (.list []) ∧
     (Spec.step (.listRange bK 2 0) 10 (Spec.abs 10 dbABC)).out = .ok (.list []) := by
-  refine ⟨by unfold DB.Inv; decide, by decide +kernel, by rfl, by rfl⟩
+  refine ⟨by unfold DB.Inv; decide, by rfl, by rfl⟩
 
-/-- D01 is real (`Trim`). `Trim("k", -5, 0)` on ["a","b","c"] must keep ["a"]; the model (like the
-code) deletes nothing. -/
-theorem trim_deviates :
-    dbABC.Inv ∧ RangeDev (.listTrim bK (-5) 0) 10 dbABC = true ∧
-    (Model.dbRun (.listTrim bK (-5) 0) 10 dbABC).out = .ok (.int 0) ∧
+/-- D01 was real (`Trim`), and is repaired. `Trim("k", -5, 0)` on ["a","b","c"] keeps ["a"]. -/
+theorem trim_clamped_agrees :
+    dbABC.Inv ∧
+    (Model.dbRun (.listTrim bK (-5) 0) 10 dbABC).out = .ok (.int 2) ∧
     (Spec.step (.listTrim bK (-5) 0) 10 (Spec.abs 10 dbABC)).out = .ok (.int 2) ∧
     Spec.get (Spec.abs 10 (Model.dbRun (.listTrim bK (-5) 0) 10 dbABC).db) bK
-      = some ⟨.list [bA, bB, bC], none⟩ ∧
+      = some ⟨.list [bA], none⟩ ∧
     Spec.get (Spec.purge 10 (Spec.step (.listTrim bK (-5) 0) 10 (Spec.abs 10 dbABC)).st) bK
       = some ⟨.list [bA], none⟩ := by
-  refine ⟨by unfold DB.Inv; decide, by decide +kernel, by rfl, by rfl, by decide +kernel,
-    by decide +kernel⟩
+  refine ⟨by unfold DB.Inv; decide, by rfl, by rfl, by decide +kernel, by decide +kernel⟩
 
-/-- D02 is real. `Range("n", 0, -1)` of a missing key must be the empty list ("a missing key reads
-as an empty list and never as an error"); the model (like the code) fails with a datatype
-mismatch (`LIMIT NULL`). -/
-theorem range_missing_deviates :
-    dbABC.Inv ∧ RangeMissing (.listRange bN 0 (-1)) 10 dbABC = true ∧
-    (Model.dbRun (.listRange bN 0 (-1)) 10 dbABC).out = .error .sqlMismatch ∧
+/-- D02 was real, and is repaired. `Range("n", 0, -1)` of a missing key is the empty list ("a missing key
+reads as an empty list and never as an error"); it used to fail with a datatype mismatch (`LIMIT NULL`). -/
+theorem range_missing_agrees :
+    dbABC.Inv ∧
+    (Model.dbRun (.listRange bN 0 (-1)) 10 dbABC).out = .ok (.list []) ∧
     (Spec.step (.listRange bN 0 (-1)) 10 (Spec.abs 10 dbABC)).out = .ok (.list []) := by
-  refine ⟨by unfold DB.Inv; decide, by decide +kernel, by rfl, by rfl⟩
+  refine ⟨by unfold DB.Inv; decide, by rfl, by rfl⟩
 
 /-- D03 is real. Between the adjacent doubles 2^53 and 2^53 + 2 the midpoint `(a + b) / 2` rounds
 back to 2^53: the insert hits the unique index on `(kid, pos)`. The slice accepts the insert
@@ -1060,18 +940,17 @@ theorem full_strength_is_false :
         Spec.abs now (Model.dbRun op now db).db
           = Spec.purge now (Spec.step op now (Spec.abs now db)).st) := by
   intro h
-  have h1 := (h (.listRange bN 0 (-1)) 10 dbABC rfl range_missing_deviates.1).1
-  rw [range_missing_deviates.2.2.1, range_missing_deviates.2.2.2] at h1
+  have h1 := (h (.listPushBack bK bX) 10 dbStaleList rfl stale_push_deviates.1).1
+  rw [stale_push_deviates.2.2.1, stale_push_deviates.2.2.2.1] at h1
   cases h1
 
-/-- … and it stays false when only the catalogue's D01, D02, D05 are excluded: D03 is needed. -/
+/-- … and it stays false when only the catalogue's D05 is excluded: D03 is needed. -/
 theorem without_d03_is_false :
     ¬ (∀ (op : Op) (now : Int) (db : DB), IsListOp op → db.Inv → Stale op now db = false →
-        RangeDev op now db = false → RangeMissing op now db = false →
         (Model.dbRun op now db).out = (Spec.step op now (Spec.abs now db)).out) := by
   intro h
   have h1 := h (.listInsertAfter bK bA bX) 10 dbTight rfl insert_collision_deviates.1
-    insert_collision_deviates.2.2.2.1 rfl rfl
+    insert_collision_deviates.2.2.2.1
   rw [insert_collision_deviates.2.2.2.2.1, insert_collision_deviates.2.2.2.2.2] at h1
   cases h1
 
@@ -1109,8 +988,7 @@ example : ∀ op ∈ [Op.listDelete bL bA, .listDelete bN bA, .listDeleteBack bL
       .listPushFront bL bX, .listPushBack bN bX, .listPushFront bS bX, .listRange bL 1 (-2),
       .listRange bL (-100) 100, .listRange bN 0 5, .listSet bL (-2) bX, .listSet bL 7 bX,
       .listTrim bL 1 2, .listTrim bL (-3) 100, .listTrim bN (-1) (-5)],
-    IsListOp op ∧ Stale op 10 demo = false ∧ RangeDev op 10 demo = false ∧
-      RangeMissing op 10 demo = false ∧ Collides op 10 demo = false ∧ Spacious op 10 demo = true := by
+    IsListOp op ∧ Stale op 10 demo = false ∧  Collides op 10 demo = false ∧ Spacious op 10 demo = true := by
   decide +kernel
 
 /-- the theorem instantiated: insert "x" after the first "a" of "l" -/
@@ -1140,7 +1018,7 @@ instance decCleanRun : ∀ tr db, Decidable (CleanRun tr db)
   | [], _ => isTrue trivial
   | (op, now) :: rest, db =>
     have := decCleanRun rest (Model.dbRun op now db).db
-    inferInstanceAs (Decidable (_ ∧ _ ∧ _ ∧ _ ∧ _ ∧ _))
+    inferInstanceAs (Decidable (_ ∧ _ ∧ _ ∧ _))
 
 instance decClockOk : ∀ t tr, Decidable (ClockOk t tr)
   | _, [] => isTrue trivial
@@ -1159,7 +1037,7 @@ instance decCleanRunRepr : ∀ tr db, Decidable (CleanRunRepr tr db)
   | [], _ => isTrue trivial
   | (op, now) :: rest, db =>
     have := decCleanRunRepr rest (Model.dbRun op now db).db
-    inferInstanceAs (Decidable (_ ∧ _ ∧ _ ∧ _ ∧ _ ∧ _))
+    inferInstanceAs (Decidable (_ ∧ _ ∧ _ ∧ _))
 
 /-- `demo` stores doubles only, the run never hits the unique index (the hypotheses of
 `list_seq_refines_repr`), and the tables at the end still store doubles only -/
